@@ -263,6 +263,13 @@ GOALS = {
                          {"a": "SetSelf", "s": "s2", "t": "g1", "mode": ["J", "R", "W", "P", "A", "S", "D"], "chan": False},
                          {"a": "SetOther", "s": "s2", "t": "g1", "u": "u1", "mode": ["J", "R"], "chan": False},
                          {"a": "DelSub", "s": "s2", "t": "g1", "u": "u1", "chan": False}]),
+    "admin_want_exceeds_given": ('st.topics["g1"].exists /\\ st.subs["g1"]["u2"].st = "live" /\\ st.subs["g1"]["u2"].want = <<"J", "R", "A", "S">> '
+                                 '/\\ st.subs["g1"]["u2"].given = <<"J", "R", "A">> /\\ "g1" \\in M(st.sess["s2"].subs) /\\ st.cache["g1"].loaded',
+                                 [{"a": "SetSelf", "s": "s2", "t": "g1", "mode": ["J", "R", "A", "S"], "chan": False},
+                                  {"a": "Get", "s": "s2", "t": "g1", "what": "desc sub", "since": 0, "before": 0, "limit": 0, "chan": False},
+                                  {"a": "Reload", "t": "g1"},
+                                  {"a": "Get", "s": "s2", "t": "g1", "what": "desc sub", "since": 0, "before": 0, "limit": 0, "chan": False},
+                                  {"a": "SetSelf", "s": "s2", "t": "g1", "mode": ["J", "R", "A", "S", "D"], "chan": False}]),
     "owner_detached": ('st.topics["g1"].exists /\\ st.cache["g1"].loaded /\\ "g1" \\notin M(st.sess["s1"].subs) /\\ st.cache["g1"].att # <<>>',
                        [{"a": "SetSelf", "s": "s1", "t": "g1", "mode": ["J", "R"], "chan": False},
                         {"a": "SetSelf", "s": "s1", "t": "g1", "mode": ["N"], "chan": False},
@@ -450,7 +457,7 @@ def goal_behaviours(ctx, users, sess, topics, names=None, maxsubs=3, marks=False
         txt = goals[nm][0] + json.dumps(goals[nm][1])
         return all(x in users for x in _re.findall(r'"(u\d+)"', txt)) and all(x in sess or x in (suspend_root, obo_root, obo_pub_root) for x in _re.findall(r'"(s\d+)"', txt))
     names = [nm for nm in names if _applies(nm)]
-    consts = mc_consts(users, sess, topics, DEV_BUILT, ["-", "N", "JR", "JRS", "JRA", "JRASO"], ["-", "N", "JR", "JRS", "JRAS", "JRASO"],
+    consts = mc_consts(users, sess, topics, DEV_BUILT, ["-", "N", "JR", "JRS", "JRA", "JRAS", "JRASO"], ["-", "N", "JR", "JRS", "JRA", "JRAS", "JRASO"],
                        ["NewGrp", "Sub", "Leave", "SetSelf", "SetOther", "DelSub", "DelTopic", "Unload"], [], maxsubs=maxsubs)
     consts_p2p = mc_consts(users, sess, topics, DEV_BUILT, ["-"], ["-"], ["P2P"], [], maxseq=3, maxsubs=maxsubs)
     consts_susp = mc_consts(users, sess, topics, DEV_BUILT, ["-", "JRW"], ["-", "JRW"], ["NewGrp", "Sub", "P2P"], [], maxseq=1, maxsubs=maxsubs)
